@@ -101,8 +101,10 @@ def execute(sc, ctx):
     initial = ops.view(node.k)
     cps = set(sc.get("checkpoints", []))
     reads_then_writes = [False, False]
+    model = ops.UserModel(node.k)
 
     def after(i, op):
+        model.apply(op, sc["hand"], node)
         if op[0] == "read":
             reads_then_writes[0] = True
         elif reads_then_writes[0] and op[0] in ("set", "unset", "reset", "reset_menu", "cunset", "load", "load_hand"):
@@ -120,7 +122,9 @@ def execute(sc, ctx):
         ctx.counters["probe:default-injected-by-load"] += 1
     else:
         # (b) fresh twin with the final user state
-        st = ops.user_state(k)
+        st = ops.user_state(k, model)
+        if st["from_model"]:
+            ctx.counters["probe:user-state-known-to-history-model"] += 1
         tw = node.twin()
         try:
             ops.transplant(tw.k, st, r)
